@@ -126,7 +126,7 @@ void do_op(const json &op, int in) {
         std::string m = op.value("m", std::string("R")); bool os = op.value("os", false);
         FdEvent *p = S->loop->newFdEvent("e" + std::to_string(e));
         p->setCallback([e](short events) { on_event(e, events); });
-        S->ev[e] = p; S->evm[e] = m + (os ? "1" : "0"); S->inv[e] = S->inv[e];
+        S->ev[e] = p; S->evm[e] = m + (os ? "1" : "0");
         T.printf("{\"e\":\"New\",\"in\":%d,\"ev\":%d,\"m\":%s,\"os\":%s}", in, e,
                  mask_json(m.find('R') != std::string::npos, m.find('W') != std::string::npos, false).c_str(), os ? "true" : "false");
         return;
